@@ -28,6 +28,22 @@ def post_c08(c):
     return out
 
 
+def post_c18(c, digests):
+    """freshness across processes: the case sequences of all Check calls without -rapid.seed, from all shard
+    processes, must be pairwise different."""
+    vals = {}
+    for k, vs in digests.items():
+        if k.startswith("freshseq/"):
+            for v in vs:
+                vals.setdefault(v, []).append(k)
+    c["fresh_sequences_compared_across_processes"] = sum(len(v) for v in vals.values())
+    out = []
+    for v, ks in vals.items():
+        if len(ks) > 1:
+            out.append(("Check calls without -rapid.seed generated the same case sequence: %s" % ks[:4], "c18/not-fresh-across", {"keys": ks[:10]}))
+    return out
+
+
 META = {
     "C03": {
         "level": "exploration",
@@ -267,5 +283,26 @@ META = {
         "level_text": "Runtime monitor of the end result of real Check runs on enumerated threshold properties.",
         "technique": "enumerated threshold properties run through the real Check; exactness oracle on the final replay's draw",
         "max_inconclusive": 0.01,
+    },
+    "C18": {
+        "level": "exploration",
+        "evaluations": ["ranges8", "band_ranges", "float_band_runs", "edge_ranges", "fresh_pairs", "concurrent_fresh_rounds"],
+        "required": ["ranges8", "band_ranges", "float_band_runs", "edge_ranges", "fresh_pairs", "concurrent_fresh_rounds", "bands_required", "edges_required",
+                     "fresh_sequences_compared_across_processes"],
+        "show": ["ranges8", "band_ranges", "bands_required", "edge_ranges", "draws", "max:draws_to_cover_8bit_range", "max:draws_to_hit_all_bands",
+                 "max:draws_to_hit_edges", "concurrent_checks", "fresh_sequences_compared_across_processes"],
+        "rule": "(a) 8-bit ranges [a,b] of Uint8Range/Int8Range (ByteRange sampled): draw until every value was seen, cap 2*10^5 (quick: every 16th range, "
+                "thorough: all 65,792); (b) 64-bit ranges placed at type extremes / crossing zero / random: offset from the bound nearer to zero split into "
+                "bit-length bands, every required band must be hit within 3*10^5 draws; full-range floats: every (sign, exponent sign, exponent magnitude "
+                "band) hit; (c) min, max and zero-if-in-range of random integer and float ranges (incl. +-Inf, adjacent floats, extremes) within 5000 draws; "
+                "(d) freshness: pairs of Checks without -rapid.seed differ, cases within a run differ, 16 goroutines x 3000 concurrent Checks all differ, "
+                "sequences differ across all shard processes; non-trivial+distinct = distinct ranges / runs explored",
+        "assumptions": COMMON_ASSUME + ["value-level reachability is exhaustive only for 8-bit ranges; for wider kinds it is decided per bit-length band "
+                                        "(probability floor 1e-4 per draw: false-alarm probability < 1e-12 per band)"],
+        "level_text": "Runtime statistical monitor: coverage of values/bands/edges observed over millions of draws through the real generators; exhaustive "
+                      "over all 8-bit ranges in the thorough tier.",
+        "technique": "coverage monitor over generated values (exhaustive value sets for 8-bit ranges, bit-length bands, edge hits) + seed freshness across calls, goroutines, processes",
+        "post": post_c18,
+        "exhaustive_key": "",
     },
 }
